@@ -574,6 +574,8 @@ func (tx *Transaction) HashForSignature(
 				txCopy.Outputs[i].Nonce = Zero[:]
 				txCopy.Outputs[i].Value = MaxConfidentialValue
 				txCopy.Outputs[i].Script = []byte{}
+				txCopy.Outputs[i].RangeProof = nil
+				txCopy.Outputs[i].SurjectionProof = nil
 			}
 
 			for i := range txCopy.Inputs {
